@@ -22,7 +22,7 @@ def key_of(step, clause):
     if step['op'] == 'measured':
         tot = float(sum(a['z9'])) or 1.
         trace = any(0 < v / tot < 1e-5 for v in a['z9'])
-        return 'BubbleDew:measured:%s,%s,%s:%s' % (a['family'], 'ideal' if a['ideal'] else 'gamma', 'trace' if trace else 'plain', clause)
+        return 'BubbleDew:measured:%s,%s,%s:%s' % (a['family'], 'ideal' if a['ideal'] else ('gamma+poynting' if a.get('pcf') else 'gamma'), 'trace' if trace else 'plain', clause)
     return 'BubbleDew:%s:scaled=%s,permuted=%s,n=%d:%s' % (step['op'], a['scaled'], a['permuted'], sum(1 for v in a['w'] if v), clause)
 
 
@@ -63,6 +63,7 @@ def measured_case(seed):
     n = len(db.A)
     fam = rng.choice(sorted(db.FAMILIES))
     ideal = rng.random() < 0.4
+    pcf = (not ideal) and rng.random() < 0.4
     ids = rng.sample(db.FAMILIES[fam], rng.randint(1, 5))
     z = [rng.choice([0.02 + rng.random(), 0.02 + rng.random(), 1e-6, 0.]) for _ in ids]
     if sum(1 for v in z if v > 0) == 0:
@@ -70,8 +71,8 @@ def measured_case(seed):
     T0 = rng.uniform(280, 440)
     perm = list(range(len(ids)))
     rng.shuffle(perm)
-    obs = db.measured(fam, ideal, ids, z, T0, rng.choice([2., 1e-3, 40.]), perm)
-    return dict(op='measured', a=dict(family=fam, ideal=ideal, ids=ids, T=int(T0 * 1000), z9=[int(v * 1e9) for v in z], w=[0] * n, tol=1000),
+    obs = db.measured(fam, ideal, ids, z, T0, rng.choice([2., 1e-3, 40.]), perm, pcf)
+    return dict(op='measured', a=dict(family=fam, ideal=ideal, pcf=pcf, ids=ids, T=int(T0 * 1000), z9=[int(v * 1e9) for v in z], w=[0] * n, tol=1000),
                 post=dict(w=[0] * n), obs=obs, job=['measured_case', seed])
 
 
@@ -103,7 +104,7 @@ def run(ctx):
     steps = []
     n = len(db.A)
     steps = [s for s in par.pmap(exact_case, [('%d:x%d' % (ctx.seed, k),) for k in range(500 if quick else 15000)]) if s]
-    steps += par.pmap(measured_case, [('%d:m%d' % (ctx.seed, k),) for k in range(80 if quick else 3000)])
+    steps += par.pmap(measured_case, [('%d:m%d' % (ctx.seed, k),) for k in range(500 if quick else 6000)])
     per = 50
     traces = [dict(id='B%d' % i, mode='fan', init=dict(w=[0] * n), steps=steps[i * per:(i + 1) * per]) for i in range((len(steps) + per - 1) // per)]
     defs, cfgc = db.tla_constants()
